@@ -958,6 +958,250 @@ fn run_dispatch(rep: &mut Report, seed: u64, origin: &str) {
 }
 
 // ------------------------------------------------------------------------------------------------
+// K: histories on ONE long-lived group of test rules — the chunk cache warm (C11_toggle_warm_cache)
+// ------------------------------------------------------------------------------------------------
+#[derive(Clone)]
+struct CountPat {
+    word: Vec<char>,
+    calls: Arc<std::sync::atomic::AtomicUsize>,
+}
+impl Pattern for CountPat {
+    fn matches(&self, tokens: &[Token], source: &[char]) -> usize {
+        self.calls.fetch_add(1, std::sync::atomic::Ordering::SeqCst);
+        match tokens.first() {
+            Some(t) if t.kind.is_word() && t.span.end <= source.len() && source[t.span.start..t.span.end] == self.word[..] => 1,
+            _ => 0,
+        }
+    }
+}
+#[derive(Clone)]
+struct TPH {
+    pat: CountPat,
+    tag: String,
+    bad: bool,
+}
+impl PatternLinter for TPH {
+    fn pattern(&self) -> &dyn Pattern {
+        &self.pat
+    }
+    fn match_to_lint(&self, toks: &[Token], _source: &[char]) -> Option<Lint> {
+        let span = if self.bad { Span::new(0, 1) } else { toks[0].span };
+        Some(Lint { span, message: self.tag.clone(), ..Default::default() })
+    }
+    fn description(&self) -> &str {
+        "test pattern rule (counts its pattern evaluations)"
+    }
+}
+#[derive(Clone)]
+enum HRule {
+    S(String, TS),
+    P(String, TPH),
+}
+fn h_build(rules: &[HRule]) -> LintGroup {
+    let mut g = LintGroup::empty();
+    for r in rules {
+        match r {
+            HRule::S(n, t) => {
+                g.add(n, Box::new(t.clone()));
+            }
+            HRule::P(n, t) => {
+                g.add_pattern_linter(n, Box::new(t.clone()));
+            }
+        }
+    }
+    g
+}
+
+fn run_history(rep: &mut Report, seed: u64, origin: &str) {
+    use std::sync::atomic::Ordering;
+    rep.eval();
+    let mut r = Rng(seed);
+    let inp = json!({"kind": "history", "seed": seed, "origin": origin});
+    // documents over a tiny vocabulary, so that the same chunk (characters + tokens) turns up in several documents and at
+    // several offsets of one document
+    let ndocs = r.range(2, 4);
+    let clauses: Vec<String> = (0..r.range(2, 4)).map(|_| (0..r.range(1, 3)).map(|_| r.s(L_WORDS).to_string()).collect::<Vec<_>>().join(" ")).collect();
+    let dict = harper_core::MutableDictionary::new();
+    let mut texts = vec![];
+    for _ in 0..ndocs {
+        let n = if r.chance(1, 12) { 0 } else { r.range(1, 5) };
+        let mut t = String::new();
+        for i in 0..n {
+            t.push_str(r.pick(&clauses[..]).as_str());
+            t.push_str(if i + 1 < n { r.s(&[", ", ". ", "; ", ", "]) } else { r.s(&["", ".", ","]) });
+        }
+        texts.push(t);
+    }
+    let docs: Vec<Document> = texts.iter().map(|t| Document::new_plain_english(t, &dict)).collect();
+    let sources: Vec<Vec<char>> = texts.iter().map(|t| t.chars().collect()).collect();
+    // chunk key ids: (characters, tokens relative to the chunk start) — what the cache key holds besides the config hash
+    let mut key_ids: HashMap<String, usize> = HashMap::new();
+    let mut doc_chunks: Vec<Vec<(Vec<Token>, Option<usize>, usize)>> = vec![];
+    for (di, d) in docs.iter().enumerate() {
+        let mut v = vec![];
+        for c in d.iter_chunks() {
+            let st = c.span().map(|s| s.start);
+            let chars: String = c.span().map(|s| sources[di][s.start..s.end].iter().collect()).unwrap_or_default();
+            let toks: Vec<String> = c.iter().map(|t| format!("{:?}@{}-{}", t.kind, t.span.start - st.unwrap_or(0), t.span.end - st.unwrap_or(0))).collect();
+            let n = key_ids.len();
+            let id = *key_ids.entry(format!("{chars}\u{1}{}", toks.join("\u{2}"))).or_insert(n);
+            v.push((c.to_vec(), st, id));
+        }
+        doc_chunks.push(v);
+    }
+    let calls = Arc::new(std::sync::atomic::AtomicUsize::new(0));
+    let mut rules: Vec<HRule> = vec![];
+    let mut adds: Vec<String> = vec![];
+    let mut tag_id: HashMap<String, usize> = HashMap::new();
+    let mut tag_name: HashMap<String, String> = HashMap::new();
+    let allow_bad = r.chance(1, 6);
+    let nrules = r.range(2, 6);
+    let names: Vec<String> = (0..nrules).map(|_| r.s(L_NAMES).to_string()).collect();
+    for (id, name) in names.iter().enumerate() {
+        let tag = format!("t{id}");
+        tag_id.insert(tag.clone(), id);
+        tag_name.insert(tag.clone(), name.clone());
+        if r.chance(1, 3) {
+            let mut rule = TS { word: r.s(L_WORDS).chars().collect(), tag };
+            let per: Vec<String> = docs.iter().map(|d| lints_arg(&rule.lint(d), id)).collect();
+            adds.push(format!("a {} {}", hex(name.as_bytes()), per.join("|")));
+            rules.push(HRule::S(name.clone(), rule));
+        } else {
+            let rule = TPH { pat: CountPat { word: r.s(L_WORDS).chars().collect(), calls: calls.clone() }, tag, bad: allow_bad && r.chance(1, 3) };
+            let per: Vec<String> = doc_chunks
+                .iter()
+                .enumerate()
+                .map(|(di, chs)| {
+                    if chs.is_empty() {
+                        "-".to_string()
+                    } else {
+                        chs.iter()
+                            .map(|(c, _, _)| {
+                                let ls: Vec<Lint> = (0..c.len()).filter(|i| rule.pat.matches(&c[*i..], &sources[di]) == 1).filter_map(|i| rule.match_to_lint(&c[i..i + 1], &sources[di])).collect();
+                                lints_arg(&ls, id)
+                            })
+                            .collect::<Vec<_>>()
+                            .join("/")
+                    }
+                })
+                .collect();
+            adds.push(format!("p {} {}", hex(name.as_bytes()), per.join("|")));
+            rules.push(HRule::P(name.clone(), rule));
+        }
+    }
+    let mut g = h_build(&rules);
+    let registered: BTreeSet<String> = g.iter_keys().map(|k| k.to_string()).collect();
+    // which tag is registered under which name (an add refused by add()/add_pattern_linter() registers nothing)
+    let mut seen: BTreeSet<String> = BTreeSet::new();
+    let mut live_tag: HashMap<String, String> = HashMap::new();
+    for (id, name) in names.iter().enumerate() {
+        if seen.insert(name.clone()) {
+            live_tag.insert(format!("t{id}"), name.clone());
+        }
+    }
+    let docs_arg = doc_chunks
+        .iter()
+        .map(|chs| if chs.is_empty() { "-".to_string() } else { chs.iter().map(|(c, st, id)| format!("{}:{id}:{}", st.map(|s| s.to_string()).unwrap_or_else(|| "n".into()), c.len())).collect::<Vec<_>>().join(",") })
+        .collect::<Vec<_>>()
+        .join("|");
+    let mut steps: Vec<String> = vec![];
+    let mut outs: Vec<String> = vec![];
+    // (doc, enabled registered names, lints) of every lint step that did not panic: for the toggle oracle
+    let mut seen_steps: Vec<(usize, BTreeSet<String>, Vec<Lint>)> = vec![];
+    let nsteps = r.range(6, 24);
+    let mut lint_steps = 0;
+    let mut hits_seen = false;
+    for si in 0..nsteps {
+        if si < names.len() && r.chance(4, 5) {
+            // switch the rules on first
+            let name = &names[si];
+            steps.push(format!("g s {} 1", hex(name.as_bytes())));
+            g.config.set_rule_enabled(name, true);
+            continue;
+        }
+        if r.chance(2, 5) {
+            let name = r.pick(&names).clone();
+            match r.below(8) {
+                0..=4 => {
+                    let b = r.chance(1, 2);
+                    steps.push(format!("g s {} {}", hex(name.as_bytes()), if b { 1 } else { 0 }));
+                    g.config.set_rule_enabled(&name, b);
+                }
+                5 => {
+                    steps.push(format!("g u {}", hex(name.as_bytes())));
+                    g.config.unset_rule_enabled(&name);
+                }
+                6 => {
+                    steps.push(format!("g i {} 1", hex(name.as_bytes())));
+                    g.config.set_rule_enabled_if_unset(&name, true);
+                }
+                _ => {
+                    let k = r.s(&["Zed", "zzz", ""]).to_string();
+                    steps.push(format!("g s {} 1", hex(k.as_bytes())));
+                    g.config.set_rule_enabled(&k, true);
+                }
+            }
+            continue;
+        }
+        let di = r.below(ndocs);
+        steps.push(format!("l {di}"));
+        lint_steps += 1;
+        calls.store(0, Ordering::SeqCst);
+        let res = guarded(|| g.lint(&docs[di]));
+        let n_calls = calls.load(Ordering::SeqCst);
+        match &res {
+            Ok(ls) => {
+                let total: usize = doc_chunks[di].iter().filter(|c| c.1.is_some()).map(|c| c.0.len()).sum();
+                let enabled_p = rules.iter().filter(|x| matches!(x, HRule::P(n, t) if live_tag.get(&t.tag) == Some(n) && g.config.is_rule_enabled(n))).count();
+                if n_calls < total * enabled_p {
+                    hits_seen = true;
+                }
+                outs.push(format!("{}|{n_calls}", ls.iter().map(|l| format!("{}-{}-{}", l.span.start, l.span.end, tag_id.get(&l.message).copied().unwrap_or(9999))).collect::<Vec<_>>().join(",")));
+                // oracle 1 (C05 side of the joint statement): a freshly built group with this configuration answers the same
+                let mut fresh = h_build(&rules);
+                fresh.config = g.config.clone();
+                let fr = guarded(|| fresh.lint(&docs[di]));
+                let same = match &fr {
+                    Ok(f) => multiset(f) == multiset(ls) && f.iter().map(lint_key).collect::<Vec<_>>() == ls.iter().map(lint_key).collect::<Vec<_>>(),
+                    Err(_) => allow_bad, // a rule that reports before its chunk: the cached relative lints need not panic
+                };
+                if !same {
+                    rep.fail("cache_warm", format!("step {si}: the long-lived group (warm cache) and a fresh one differ on document {di}"), inp.clone());
+                }
+                // oracle 2 (the toggle law over the history): an earlier call of this document whose configuration differs in
+                // at most one registered switch r gave the same lints, r's own removed, in the same order
+                let en: BTreeSet<String> = registered.iter().filter(|k| g.config.is_rule_enabled(k)).cloned().collect();
+                if !allow_bad {
+                    for (dj, enj, lj) in &seen_steps {
+                        if *dj != di {
+                            continue;
+                        }
+                        let diff: Vec<&String> = en.symmetric_difference(enj).collect();
+                        if diff.len() > 1 {
+                            continue;
+                        }
+                        let others = |v: &Vec<Lint>| -> Vec<String> { v.iter().filter(|l| diff.first().map(|r| tag_name.get(&l.message) != Some(*r)).unwrap_or(true)).map(lint_key).collect() };
+                        rep.count("history:toggle_pairs");
+                        if others(ls) != others(lj) {
+                            rep.fail("toggle_warm", format!("step {si}: toggling {:?} changed another rule's lints on document {di} (warm cache)", diff), inp.clone());
+                        }
+                    }
+                }
+                seen_steps.push((di, en, ls.clone()));
+            }
+            Err(_) => outs.push("P".into()),
+        }
+    }
+    let case_line = format!("K {} # {docs_arg} # {}", adds.join(" ; "), steps.join(" ; "));
+    rep.case(&case_line, outs.join(" ; ").trim());
+    rep.count(if hits_seen { "history:with_cache_hits" } else { "history:no_cache_hit" });
+    rep.count(&format!("history:lint_steps_{}", bucket(lint_steps)));
+    if hits_seen && lint_steps >= 2 {
+        rep.nontrivial(&case_line);
+    }
+}
+
+// ------------------------------------------------------------------------------------------------
 // search oracle on the curated LintGroup
 // ------------------------------------------------------------------------------------------------
 fn lint_key(l: &Lint) -> String {
@@ -1527,6 +1771,7 @@ fn replay_input(rep: &mut Report, cx: &Ctx, ls: &mut Linters, wasm: &mut Option<
         "print" => run_print(rep, &json_map(&v["cfg"])),
         "hash" => run_hash(rep, &json_map(&v["cfg"])),
         "dispatch" => run_dispatch(rep, v["seed"].as_u64().unwrap_or(0), "replay"),
+        "history" => run_history(rep, v["seed"].as_u64().unwrap_or(0), "replay"),
         "search" => search_case(rep, cx, ls, &Search::from_json(v)),
         // compact form of a complete rule map: curated - absent + stale, `flips` override defaults
         "search_full" => {
@@ -1555,7 +1800,7 @@ fn replay_input(rep: &mut Report, cx: &Ctx, ls: &mut Linters, wasm: &mut Option<
 fn main() {
     let (a, corpus) = hv::cli();
     let mut rep = Report::new(&a.out);
-    rep.rule = "correspondence: T curated table; C random LintGroupConfig operation sequences (3 registers, 0-14 ops over real rule names + unknown/odd keys incl. NUL, quotes, control characters, astral; merges, clears, fills, JSON round trips via serde_json and Config::from_lsp_config); J JSON texts (valid with whitespace/escape/surrogate/duplicate variants + 13 fault classes); P printer; H Hasher::write calls; L LintGroup::lint over groups of test rules built with add/add_pattern_linter/merge_from/set_all_rules_to (names collide, one name in both maps, pattern lints before their chunk). search: curated LintGroup on generated documents (plain 3/4, markdown 1/4) x random on/off/null/absent configurations at six densities: fresh-vs-long-lived, union of single-switch runs, all-off/clear/empty silent, two-way partition (multiset + order), toggle (others keep value and order), unknown keys, save/fill/lint/restore incl. harper-ls generate_diagnostics/generate_code_actions and harper_wasm::Linter; histories of 1-4 settings objects (1/5 of them complete rule maps) sent to one harper_wasm::Linter (stored configuration = correspondence through the `w` operation; last object alone decides = property oracle, C11_wasm_history_curated; was finding FC11a, fixed by b67a243). complete rule maps (every entry explicit) with 0-5 curated rules missing and stale keys standing in so that the entry count is below / at / above the number of rules: as C operation sequences ending in fill_with_curated (200 / 3000) and as search configurations incl. generate_diagnostics (10 / 150). thorough adds every one-character key U+0000..U+07FF + a sweep of higher planes through printer/parser/LSP route and 150 documents with all rules on (every rule singly). non-trivial = distinct (text, configuration) with >=2 enabled rules and >=1 lint, or op sequence >=3, or accepted JSON text, or dispatch case with lints".into();
+    rep.rule = "correspondence: T curated table; C random LintGroupConfig operation sequences (3 registers, 0-14 ops over real rule names + unknown/odd keys incl. NUL, quotes, control characters, astral; merges, clears, fills, JSON round trips via serde_json and Config::from_lsp_config); J JSON texts (valid with whitespace/escape/surrogate/duplicate variants + 13 fault classes); P printer; H Hasher::write calls; K histories (config operations and lint calls on 2-4 documents sharing chunks) on ONE long-lived group of 2-6 test rules: lints and the number of pattern evaluations (= cache misses x enabled pattern rules) per call vs C11Cache.run_history, plus fresh-vs-warm and toggle-over-the-history oracles; L LintGroup::lint over groups of test rules built with add/add_pattern_linter/merge_from/set_all_rules_to (names collide, one name in both maps, pattern lints before their chunk). search: curated LintGroup on generated documents (plain 3/4, markdown 1/4) x random on/off/null/absent configurations at six densities: fresh-vs-long-lived, union of single-switch runs, all-off/clear/empty silent, two-way partition (multiset + order), toggle (others keep value and order), unknown keys, save/fill/lint/restore incl. harper-ls generate_diagnostics/generate_code_actions and harper_wasm::Linter; histories of 1-4 settings objects (1/5 of them complete rule maps) sent to one harper_wasm::Linter (stored configuration = correspondence through the `w` operation; last object alone decides = property oracle, C11_wasm_history_curated; was finding FC11a, fixed by b67a243). complete rule maps (every entry explicit) with 0-5 curated rules missing and stale keys standing in so that the entry count is below / at / above the number of rules: as C operation sequences ending in fill_with_curated (200 / 3000) and as search configurations incl. generate_diagnostics (10 / 150). thorough adds every one-character key U+0000..U+07FF + a sweep of higher planes through printer/parser/LSP route and 150 documents with all rules on (every rule singly). non-trivial = distinct (text, configuration) with >=2 enabled rules and >=1 lint, or op sequence >=3, or accepted JSON text, or dispatch case with lints".into();
     let cx = Ctx::new();
     let mut ls = Linters { shared: LintGroup::new_curated(cx.dict.clone(), Dialect::American) };
     let mut wasm: Option<harper_wasm::Linter> = None;
@@ -1615,6 +1860,12 @@ fn main() {
     for _ in 0..a.scale(1500, 20000) {
         let s = r.next();
         run_dispatch(&mut rep, s, "random");
+    }
+    // K: histories on one long-lived group of test rules (warm chunk cache): correspondence with C11Cache.run_history
+    // (lints and the number of pattern evaluations, i.e. hits and misses), fresh-vs-warm and the toggle law as oracles
+    for _ in 0..a.scale(1200, 15000) {
+        let s = r.next();
+        run_history(&mut rep, s, "random");
     }
     for _ in 0..a.scale(90, 1200) {
         let s = random_search(&cx, &mut r);
